@@ -1,11 +1,15 @@
 -- GENERATED from /repo by tools (never hand-edited); regenerated on every check run.
-import ScenicModel.Model.Choose
+import ScenicModel.Model.ChooseSelect
 namespace Scenic.Gen
 /-- constants read from `_invokeSubBehavior.pickEnabledInvocable` / the shuffle branch / `Options.__init__`
 (reference values for a function whose shape did not match its template on this run) -/
 def chooseConfig : Scenic.Choose.Config :=
   { defaultWeight := 1, shortcutLen := 1, shortcutIdx := 0, dropZero := true,
     copyOperand := true }
+/-- integer constants of `Options.__init__` (`len(options) - highOff`), `Options.makeSelector` (`DiscreteRange(selLow, …)`),
+`DiscreteRange.__init__` (`range(low, high + rangeOff)`) and `DiscreteRange.sampleGiven` (`choices(…)[takeIdx]`) -/
+def selectConfig : Scenic.Choose.SelectConfig :=
+  { highOff := 1, selLow := 0, rangeOff := 1, takeIdx := 0 }
 /-- functions whose statement-by-statement shape matched the model's template on this run (informational) -/
 def chooseMatchedShapes : List String := ["Invocable._runSubBehavior", "Invocable._invokeSubBehavior", "Invocable._isEnabledForAgent", "Options.__init__", "Options.makeSelector", "DiscreteRange.__init__", "DiscreteRange.sampleGiven", "MultiplexerDistribution.__init__", "MultiplexerDistribution.sampleGiven", "Uniform", "Distribution.__new__", "visit_DoChoose", "visit_DoShuffle", "makeDoLike"]
 end Scenic.Gen
